@@ -116,6 +116,13 @@ def check_spec(ctx, spec, points):
     if not np.array_equal(D, Do):
         ctx.violation("stoich/delayed", "delayed stoichiometric matrix differs from delayed products - reactants",
                       {"spec": spec, "species": sl, "implementation": D.tolist(), "expected": Do.tolist()})
+    # a pickled copy of the (initialised) model reports the same two matrices, each in its own place
+    import pickle
+    M2 = pickle.loads(pickle.dumps(M))
+    U2, D2 = np.array(M2.py_get_update_array()), np.array(M2.py_get_delay_update_array())
+    if not (np.array_equal(U2, Uo) and np.array_equal(D2, Do)):
+        ctx.violation("stoich/pickled-copy", "a pickled copy of the model reports other stoichiometric matrices than products - reactants",
+                      {"spec": spec, "species": sl, "copy": [U2.tolist(), D2.tolist()], "expected": [Uo.tolist(), Do.tolist()]})
     I = ModelCSimInterface(M)
     I.py_prep_deterministic_simulation()
     derivs = []
